@@ -79,6 +79,6 @@ def get_convergence_format(epsilon: float, max_decimals: int = 10) -> str:
     # Add 1 to ensure we can see changes until below epsilon
     decimal_places = -int(np.floor(np.log10(epsilon))) + 1
     # Cap at max_decimals
-    decimal_places = min(decimal_places, max_decimals)
+    decimal_places = max(min(decimal_places, max_decimals), 0)
 
     return f".{decimal_places}f"
